@@ -78,7 +78,8 @@ class DS:
             if cs and all(isinstance(c, str) for c in cs):
                 coords[d] = np.array(cs, dtype=str)
             elif cs and all(isinstance(c, int) for c in cs):
-                coords[d] = np.array(cs, dtype=np.int64)
+                # integer coordinates come in the integer dtypes users have (chosen by the values, so a case is reproducible)
+                coords[d] = np.array(cs, dtype=[np.int64, np.uint16, np.int32, np.uint64][sum(cs) % 4])
             else:
                 coords[d] = np.array(cs, dtype=float)
         data = {}
